@@ -42,6 +42,15 @@ var loadScale = func() int {
 	return f
 }()
 
+// shortScale: the stretch applied to the short limits (glue candidates, incremental pass, cover searches), whose
+// expiry is the normal outcome for wrong candidates: kept small so that a busy machine does not multiply the run time.
+var shortScale = func() int {
+	if loadScale > 3 {
+		return 3
+	}
+	return loadScale
+}()
+
 // buildScript renders a chunk of obligations as one incremental script.
 func buildScript(prelude string, decls []string, obs []*Oblig, timeoutMs int) string {
 	var b bytes.Buffer
@@ -140,7 +149,7 @@ func (vc *FuncVC) solveAll(all []*Oblig, cfg solverCfg) {
 	if len(covers) > 0 {
 		// raced directly (no incremental phase): one model search per cover, all in parallel
 		ccfg := cfg
-		ccfg.timeoutMs = 1500 * loadScale
+		ccfg.timeoutMs = 1500 * shortScale
 		ccfg.thorough = false
 		prelude := vc.w.prelude()
 		var wg sync.WaitGroup
@@ -235,8 +244,8 @@ func (vc *FuncVC) solveSet(obs []*Oblig, cfg solverCfg) {
 			sem <- struct{}{}
 			defer func() { <-sem }()
 			incTimeout := cfg.timeoutMs
-			if incTimeout > 2500*loadScale {
-				incTimeout = 2500 * loadScale // whatever the incremental pass cannot settle quickly is re-raced one by one with the full timeout
+			if incTimeout > 2500*shortScale {
+				incTimeout = 2500 * shortScale // whatever the incremental pass cannot settle quickly is re-raced one by one with the full timeout
 			}
 			script := buildScript(prelude, decls, chunk, incTimeout)
 			t0 := time.Now()
